@@ -23,6 +23,7 @@ pairs are ordinary cases.
 import collections
 import copy
 import json
+import re
 
 import gensql
 import sqlcheck
@@ -119,6 +120,22 @@ def back_map(op):
     return m
 
 
+_PLAIN = re.compile(r"^[A-Za-z0-9_$#@*]+$")
+_QUAL = re.compile(r"[A-Za-z_][A-Za-z0-9_$#]*\.(?=[A-Za-z_*])")
+
+
+def mask_expr_name(e, tables):
+    """the display name of an un-aliased expression is its text (exempt from the property, DESIGN §7): inside such a name the
+    qualifiers are dropped.  `tables`: printed names of the tables of the result, to split owner from column name."""
+    for t in sorted(tables, key=len, reverse=True):
+        if e.startswith(t + "."):
+            name = e[len(t) + 1:]
+            if not _PLAIN.match(name):
+                return t + "." + _QUAL.sub("", name)
+            return e
+    return e
+
+
 def map_endpoint(e, bm):
     # a column prints as <parent>.<column>; tables print as schema.table (dotted parent), subqueries / CTEs as their bare
     # alias: only an undotted parent can be a statement-local name
@@ -139,7 +156,9 @@ def summary(res, bm=None):
         return None
     if "error" in res:
         return {"error": res["error"]}
-    return {"tables": {k: res[k] for k in ("source", "target", "intermediate")}, "pairs": pairs_of(res["paths"], bm)}
+    tabs = set(res["source"]) | set(res["target"]) | set(res["intermediate"])
+    pairs = sorted({(mask_expr_name(a, tabs), mask_expr_name(b, tabs)) for a, b in pairs_of(res["paths"], bm)})
+    return {"tables": {k: res[k] for k in ("source", "target", "intermediate")}, "pairs": pairs}
 
 
 def impl_res(i):
@@ -205,6 +224,23 @@ def subquery_capture_explains(stmt, op, s0, s1):
             return False
     col = lambda e: e.rsplit(".", 1)[-1]
     return {(col(s), t) for s, t in removed} == {(col(s), t) for s, t in added}
+
+
+def subquery_keyword_explains(stmt, op, s0, s1):
+    """model-free description of the listed finding D2-keyword-alias: the statement has a subquery inside a select item, a new
+    name is a keyword, and the only difference is that source columns are now owned by a table called like that keyword
+    (<default>.<keyword>): the sqlparse re-analysis of the item subquery did not read the keyword as an alias"""
+    if not gensql.item_has_subq(stmt) or "keyword" not in op.get("kinds", []) or not owner_only_difference(s0, s1):
+        return False
+    kws = {norm(n) for (_, n), k in zip(op.get("subst", []), op["kinds"]) if k == "keyword"}
+    added = {tuple(p) for p in s1["pairs"]} - {tuple(p) for p in s0["pairs"]}
+    if not added:
+        return False
+    for src, _ in added:
+        parts = src.split(".")
+        if len(parts) != 3 or parts[1] not in kws:
+            return False
+    return True
 
 
 def owner_only_difference(s0, s1):
@@ -291,6 +327,8 @@ def classify(drv, stmt, op, a, x0, x1, mm0, mm1, cache, listed):
         return "known:D7", det
     if cls == "d7" and "D2-alias-capture" in listed and subquery_capture_explains(stmt, op, s0, s1):
         return "known:D2-alias-capture", det
+    if "D2-keyword-alias" in listed and subquery_keyword_explains(stmt, op, s0, s1):
+        return "known:D2-keyword-alias", det
     if cls == "d7" and "D7" in listed and not model_applies and owner_only_difference(s0, s1):
         # a select-item subquery keeps the statement out of the model (`_get_column_from_subquery`): D7 is then recognised by its
         # model-free signature — same tables, same (column, target) pairs, only the OWNER of some source columns differs
@@ -304,7 +342,7 @@ def property_fails(drv, stmt, op, dialect, want_class, cache, listed):
     x0, x1, a = evaluate_pair(drv, stmt, op, dialect)
     if x0 is None or x1 is None or not a["changed"]:
         return False
-    if verdict_class(a, op) != want_class:
+    if verdict_class(a, op) is None:
         return False
     return classify(drv, stmt, op, a, x0, x1, None, None, cache, listed)[0] == "fail"
 
@@ -318,10 +356,12 @@ def shape_of(sql, dialect):
         tree = parsed.tree
 
         def go(seg):
-            if seg.is_type("whitespace", "newline", "comment", "inline_comment", "block_comment") or seg.is_meta:
+            if seg.is_type("whitespace", "newline", "comment", "inline_comment", "block_comment", "keyword") or seg.is_meta:
                 return None
-            kids = [go(s) for s in seg.segments]
-            return [seg.type] + [k for k in kids if k is not None]
+            kids = [k for k in (go(s) for s in seg.segments) if k is not None]
+            if seg.segments and not kids:
+                return None        # a wrapper of keywords only (alias_operator around AS)
+            return [seg.type] + kids
         return go(tree)
     except Exception as e:     # noqa
         return ["<error>", type(e).__name__]
@@ -455,20 +495,22 @@ def run(chk):
             st.c["invariant"] += 1
             if det["model_applies"]:
                 ms0, ms1 = det["ms0"], det["ms1"]
-                if not det["model_inv"]:
+                if s0 != ms0:
+                    # this dialect already reads the ORIGINAL text differently from the typed AST (tsql: `join t using (c)` makes
+                    # `using` an alias; oracle: an item alias needs AS): the model does not describe this reading — C02 / C09
+                    st.c["impl!=model-on-original(left to C02)"] += 1
+                elif not det["model_inv"]:
                     # the model says the code is not invariant here, the code is: the model no longer describes the code
                     st.c["stale:model-not-invariant"] += 1
                     if len(chk.stale) < 20:
                         chk.stale.append({"kind": "c08-pair", "sql": a["orig_sql"], "renamed": a["sql"], "dialect": d,
                                           "impl": [s0, s1], "model": [ms0, ms1], "class": cls})
-                elif s0 == ms0 and s1 != ms1 and not same_modulo_star(drv, a["stmt"], a["stmt"], s1, ms1, cache):
+                elif s1 != ms1 and not same_modulo_star(drv, a["stmt"], a["stmt"], s1, ms1, cache):
                     # agree on the original, disagree on the renamed text only
                     st.c["stale:impl!=model-after-renaming"] += 1
                     if len(chk.stale) < 20:
                         chk.stale.append({"kind": "c08-renamed-side", "sql": a["orig_sql"], "renamed": a["sql"], "dialect": d,
                                           "impl": s1, "model": ms1, "class": cls})
-                elif s0 != ms0:
-                    st.c["impl!=model-on-original(left to C02)"] += 1
             continue
         # the implementation is NOT invariant on this pair
         st.c["not-invariant"] += 1
@@ -494,10 +536,12 @@ def run(chk):
         if (cls, op["op"]) in seen_shapes:
             continue
         stmt = stmts[si][1] if si is not None else WITNESS_D7["ast"]
-        if "keyword" in op["kinds"]:
-            # the dialect accepted the text; did it read the keyword as an identifier?  compare parse-tree shapes
+        if op["op"] in ("rename", "toggle"):
+            # the dialect accepted both texts; did it read them as the same statement?  a renaming changes identifier spellings
+            # only, AS is a keyword leaf: the parse-tree shapes (keyword leaves dropped) must be equal.  If not, the parser reads
+            # the new name as something else (keyword) or does not read an alias without AS as an alias: a rejection by another name
             if shape_of(a["orig_sql"], d) != shape_of(a["sql"], d):
-                st.c["keyword-reparsed(not an identifier here)"] += 1
+                st.c["reparsed(accepted but read as another statement):" + d] += 1
                 continue
         small = sqlcheck.shrink(stmt, lambda c: property_fails(drv, c, op, d, cls, cache, listed), budget=150)
         x0, x1, a2 = evaluate_pair(drv, small, op, d)
@@ -519,12 +563,16 @@ def run(chk):
                     pass
             x0, x1, a2 = evaluate_pair(drv, small, op2, d)
         s0, s1 = summary(x0), summary(x1, back_map(op2))
-        what = ("lineage changes under %s of statement-local names (%s)" %
-                ({"rename": "a consistent renaming", "add": "adding an alias", "drop": "removing an alias", "toggle": "toggling AS"}[op2["op"]],
-                 "new alias equals the bare name of another table: D7 class" if cls == "d7" else "fresh, non-clashing names"))
+        cls2 = verdict_class(a2, op2)
+        what = ("lineage changes under %s (%s)" %
+                ({"rename": "a consistent renaming of statement-local names", "add": "adding an alias", "drop": "removing an alias",
+                  "toggle": "toggling AS"}[op2["op"]],
+                 "fresh, non-clashing names" if cls2 != "d7" else
+                 "some alias equals another table's bare name, but the difference is not the one of a listed finding"
+                 if listed else "some alias equals another table's bare name"))
         seen_shapes.add((cls, op["op"]))
         chk.violation(what, {"kind": "c08-pair", "ast": small, "op": {k: op2[k] for k in ("op", "subst", "names", "kinds") if k in op2},
-                             "dialect": d, "class": cls, "sql": a2["orig_sql"], "renamed_sql": a2["sql"],
+                             "dialect": d, "class": cls2, "sql": a2["orig_sql"], "renamed_sql": a2["sql"],
                              "impl_original": s0, "impl_renamed": s1})
         reported += 1
     sqlimpl.close_pool()
@@ -534,6 +582,7 @@ def run(chk):
         chk.coverage["leanchecker"] = "accepted" if ok else "REJECTED: " + out[-300:]
         if not ok:
             chk.lean.forbidden.append("leanchecker rejected SqlLineage.Props.C08: " + out[-300:])
+    chk.coverage["stale_examples"] = chk.stale[:5]
     chk.coverage.update({"statements": len(stmts), "operations": len(keep), "dialects": base_dialects + extra_dialects,
                          "renamings_per_statement": K, "distribution": st.as_dict(), "d7_class_pairs": d7_class_cases,
                          "exhaustive": False})
